@@ -13,6 +13,7 @@ EXPLANATION = (
     "client tests (shared with C07-R5); batch/oneway flags agree on both sides; BatchProxy submits the collected calls once "
     "and clears them on every path; the batch envelope (kwargs slot None) is accepted by every serializer's dumpsCall/loadsCall."
     'Also decided: the call list is dropped also when the submission raises; BatchProxy.__copy__ does not share the call list; marshal converts the members of batch containers. '
+    "Also decided (round 7): The proxy's call list is emptied in place, never re-bound (batched method objects obtained earlier keep queueing into it). "
     "Not decided: equivalence of effects with sequential execution on a stateful object."
 )
 
@@ -200,6 +201,18 @@ def run(ctx, R, tier):
             R.check(okx, "C11-R4", "BatchProxy.%s|cleared-also-when-the-submission-raises" % mname, "also when the submission raises, the collected calls are dropped before the method is left",
                     bc.loc(), "when the submission raises (an unexposed name after calls that did run, a lost connection) the calls stay queued: the next use of this BatchProxy "
                     "executes the already executed prefix again")
+    # the batched method objects a caller holds (`add = batch.add`) share the proxy's call list: it is emptied in place, never re-bound - a fresh list after a
+    # submission would leave every method object obtained earlier appending to the old one, and its calls would silently never be sent
+    bp = p.cls("Pyro5.client.BatchProxy")
+    rebinds = []
+    for mname, m in sorted(bp.methods.items()):
+        for st, t, k in stores_in(m.node):
+            if isinstance(t, ast.Attribute) and t.attr.endswith("__calls") and isinstance(t.value, ast.Name) and t.value.id == m.self_name and mname != "__init__":
+                rebinds.append((m, st))
+    R.check(not rebinds, "C11-R4", "BatchProxy|call-list-never-rebound", "outside __init__ the proxy's own call list is emptied in place (clear()), never replaced by another list",
+            rebinds[0][0].loc(rebinds[0][1]) if rebinds else bp.module.relpath,
+            ("`%s` in BatchProxy.%s replaces the list that previously obtained batched-method objects append to: calls queued through them after this point are lost without any error"
+             % (unparse(rebinds[0][1]), rebinds[0][0].name)) if rebinds else "")
     bc = ctx.fn("Pyro5.client.BatchProxy.__call__")
     bcfg = ctx.cfg(bc)
 
